@@ -1248,6 +1248,9 @@ name_parse(u8 *packet, int length, int *idx, char *name_out, int name_out_len) {
 		}
 		if (cp + label_len >= end) return -1;
 		if (j + label_len > length) return -1;
+		/* a NUL would cut short the string we return: "a.b\0x" must
+		 * not be taken for "a.b" */
+		if (memchr(packet + j, 0, label_len)) return -1;
 		memcpy(cp, packet + j, label_len);
 		cp += label_len;
 		j += label_len;
@@ -1324,13 +1327,15 @@ reply_parse(struct evdns_base *base, u8 *packet, int length)
 		cmp_name[0] = '\0';
 		/* our own question always follows the 12-byte header */
 		k = 12;
+		/* a question we cannot decode does not tell us that this is
+		 * the answer to our request: ignore the packet */
 		if (name_parse(packet, length, &j, tmp_name, sizeof(tmp_name)) < 0)
-			goto err;
+			return -1;
 		if (name_parse(req->request, req->request_len, &k,
 			cmp_name, sizeof(cmp_name))<0)
 			goto err;
 		if (j + 4 > length)
-			goto err;
+			return -1;
 		{
 			/* the question must also ask for our type, class IN */
 			u16 qtype, qclass;
